@@ -18,7 +18,7 @@ EXTENDS Integers, Sequences, TLC
 
 Provs == {"elem", "mapent", "scall", "gocall", "paren", "tern", "nilco"}
 \* the value read out of a NAMED container that stays reachable (hl_<v> = [<v>], hm_<v> = {"k": <v>}); only directly on the variable
-NamedProvs == {"nelem", "nmapent"}
+NamedProvs == {"nelem", "nmapent", "ntelem"}         \* ntelem: ht_<v> = a TYPED list []T{<v>} (T the Go type of the value)
 
 Hop(p, s) == CASE p = "elem"   -> "[" \o s \o "][0]"
                [] p = "mapent" -> "{\"k\": " \o s \o "}[\"k\"]"
@@ -29,6 +29,7 @@ Hop(p, s) == CASE p = "elem"   -> "[" \o s \o "][0]"
                [] p = "nilco"  -> "(" \o s \o " ?? nil)"
                [] p = "nelem"  -> "hl_" \o s \o "[0]"
                [] p = "nmapent" -> "hm_" \o s \o ".k"
+               [] p = "ntelem" -> "ht_" \o s \o "[0]"
 
 RECURSIVE Apply(_, _, _)
 Apply(chain, i, s) == IF i > Len(chain) THEN s ELSE Apply(chain, i + 1, Hop(chain[i], s))
